@@ -281,7 +281,60 @@ fn skips(b: &[u8], first: IpNumber) -> Value {
     json!({"has": 1, "skippable": if Ipv6Header::is_skippable_header_extension(first) { 1 } else { 0 }, "all": all, "one": one, "all_r": all_r, "one_r": one_r})
 }
 
+/// the LimitedReader state machine driven directly: calls = [n] (read_exact of n bytes) or [-1] (start_layer);
+/// after every call: [result kind, read_len, max_len, layer_offset, bytes pulled from the underlying reader, error: required_len, len, offset, source+layer ok]
+fn run_limited(id: &str, c: &Value) -> Value {
+    let max = c["max"].as_u64().unwrap() as usize;
+    let avail = c["avail"].as_u64().unwrap() as usize;
+    let data: Vec<u8> = (0..avail).map(|i| (i * 7 + 1) as u8).collect();
+    let mut lr = io::LimitedReader::new(Cursor::new(&data[..]), max, LenSource::Ipv6HeaderPayloadLen, 40, err::Layer::Ipv6ExtHeader);
+    let mut obs = vec![];
+    let mut dead = false;
+    let mut got: Vec<u8> = vec![];
+    for call in c["calls"].as_array().unwrap() {
+        let n = call[0].as_i64().unwrap();
+        if dead {
+            break;
+        }
+        let r = catch_unwind(AssertUnwindSafe(|| {
+            if n < 0 {
+                lr.start_layer(err::Layer::IpAuthHeader);
+                ("ok", -1, -1, -1, 1)
+            } else {
+                let mut buf = vec![0u8; n as usize];
+                match lr.read_exact(&mut buf) {
+                    Ok(()) => {
+                        got.extend(&buf);
+                        ("ok", -1, -1, -1, 1)
+                    }
+                    Err(err::io::LimitedReadError::Io(_)) => ("io", -1, -1, -1, 1),
+                    Err(err::io::LimitedReadError::Len(e)) => ("len", e.required_len as i64, e.len as i64, e.layer_start_offset as i64,
+                                                              if e.len_source == LenSource::Ipv6HeaderPayloadLen && e.layer == lr.layer() { 1 } else { 0 }),
+                }
+            }
+        }));
+        match r {
+            Err(_) => {
+                obs.push(json!(["panic", -1, -1, -1, -1, -1, -1, -1, -1]));
+                dead = true;
+            }
+            Ok((k, req, len, off, ok)) => {
+                // (after an I/O error the position of the underlying reader is the reader's business)
+                obs.push(json!([k, lr.read_len(), lr.max_len(), lr.layer_offset(), got.len(), req, len, off, ok]));
+                if k == "io" {
+                    dead = true;
+                }
+            }
+        }
+    }
+    let prefix = got[..] == data[..got.len().min(data.len())];
+    json!({"ev": "lr", "id": id, "type": "lr", "max": max, "avail": avail, "calls": c["calls"], "obs": obs, "prefix": if prefix { 1 } else { 0 }})
+}
+
 pub fn run_case(id: &str, c: &Value) -> Value {
+    if c["type"] == "lr" {
+        return run_limited(id, c);
+    }
     let ty = c["type"].as_str().unwrap().to_string();
     let b: Vec<u8> = c["bytes"].as_array().unwrap().iter().map(|x| x.as_u64().unwrap() as u8).collect();
     let first = c.get("start").and_then(|x| x.as_u64()).unwrap_or(0) as u8;
